@@ -99,14 +99,15 @@ def Obs.counters (o : Obs) (name : String) : List Int :=
 /-- `counter(name)`: the innermost instance; 0 when there is none -/
 def Obs.counter (o : Obs) (name : String) : Int := ((o.values name).getLast?).getD 0
 
-/-- ::before / ::after: `UpdateCounters(state, style)` then the content is evaluated -/
+/-- ::before / ::after: `UpdateCounters(state, style)`, then the marker of a `display: list-item`
+    pseudo-element, then the content — both read the updated counters -/
 def pseudo (k : ObsKind) (p : Option Ops) (st : State) : Option (State × List Obs) :=
   match p with
   | none => some (st, [])
   | some o =>
     match updateCounters st o with
     | none => none
-    | some st => some (st, [⟨k, st.values⟩])
+    | some st => some (st, (if o.listItem then [⟨.marker, st.values⟩] else []) ++ [⟨k, st.values⟩])
 
 /-- end of elementToBox: the scope of the children is closed -/
 def popScope (st : State) : Option State :=
